@@ -444,14 +444,19 @@ def direct_rule(run, n):
 def check(run):
     common.import_repo()
     quick = run.quick
-    bounds = (3, 2, '{{0}, {1, 2}}') if quick else (3, 3, '{{0}, {2}, {0, 1, 2}}')
-    res = tlc.run('MC_MonteCarlo', MC_CFG % bounds, run.scratch, workers=16, timeout=3000, dump=True, coverage=True,
-                  heap='12g')
-    tlc.check_ok(res, 'MC_MonteCarlo', need_actions=('MCStart', 'MCChoose', 'MCEvaluate', 'MCJudgeBetter', 'MCJudgeWorse', 'MCStop'))
-    run.add_tlc(res, 'MonteCarlo exhaustive: measures 1..%d (ties), budget <= %d, type sets %s: AbsHeld, AbsMin, AbsCounter, '
-                     'AbsRule, KindsEnabled, NeverBeyond, StopExact, NoStepAfterBudget, RejectKeeps' % bounds)
-    behs = behaviours_from_dump(res.dump_path)
-    os.remove(res.dump_path)
+    # thorough: several bounded configurations instead of one large one (kinds multiply the state space by 2..3 per
+    # step without adding bookkeeping behaviour): more measures, longer budgets, every type set
+    blist = [(3, 2, '{{0}, {1, 2}}')] if quick else [(4, 2, '{{0}, {1, 2}}'), (3, 3, '{{0}}'), (2, 3, '{{0}, {1, 2}}'),
+                                                      (3, 2, '{{2}, {0, 1, 2}}')]
+    behs = []
+    for bounds in blist:
+        res = tlc.run('MC_MonteCarlo', MC_CFG % bounds, run.scratch, workers=16, timeout=3000, dump=True, coverage=True,
+                      heap='12g')
+        tlc.check_ok(res, 'MC_MonteCarlo', need_actions=('MCStart', 'MCChoose', 'MCEvaluate', 'MCJudgeBetter', 'MCJudgeWorse', 'MCStop'))
+        run.add_tlc(res, 'MonteCarlo exhaustive: measures 1..%d (ties), budget <= %d, type sets %s: AbsHeld, AbsMin, AbsCounter, '
+                         'AbsRule, KindsEnabled, NeverBeyond, StopExact, NoStepAfterBudget, RejectKeeps' % bounds)
+        behs += behaviours_from_dump(res.dump_path)
+        os.remove(res.dump_path)
     total = len(behs)
     rng = random.Random(run.seed)
     limit = 40000 if quick else 400000
